@@ -106,10 +106,25 @@ def nontrivial(prog, steps):
     return any(len(rcheck.run_spans(st["events"])) >= 3 for k, st in enumerate(steps) if k < len(prog) and prog[k][0] in ("set", "batch"))
 
 
+def oracle(prog, steps):
+    """glitch oracle, plus: a derived node that some computation read during a statement and that is out of date when the statement
+    returns (its tracked inputs changed since it was computed and it was not re-run) was read out of date"""
+    fails = rcheck.glitch_failures(prog, steps)
+    for f in rcheck.consistency_failures(prog, steps):
+        k = f["step"]
+        if k >= len(prog) or prog[k][0] not in ("set", "batch"):
+            continue
+        readers = [r["name"] for r in rcheck.run_spans(steps[k]["events"]) if any(x == f["node"] for (x, _, _, _, _) in r["reads"])]
+        if readers and f["kind"] != "effect":
+            fails.append({"oracle": "read-out-of-date", "step": k, "node": f["node"], "holds": f["holds"], "up_to_date_value": f["fresh_value"],
+                          "read_by": readers[:3], "known": f["known"]})
+    return fails
+
+
 def main(argv):
     return rcheck.run(
         PID, argv, module="C02", theorems=['C02_one_entry_per_scheduled_node', 'C02_schedule_has_no_duplicates', 'C02_runs_only_if_dirty', 'C02_step', 'C02_write_schedule',
-                                          'C02_write_reads_settled', 'C02_write_runs_only_if_fired', 'C02_write_runs_if_fired', 'C02_untracked_read_sees_stale_value'], bridge=1500, extra_targets=["theories/Reactive/Bridge.vo"], gen=gen, oracle=rcheck.glitch_failures, nontrivial=nontrivial,
+                                          'C02_write_reads_settled', 'C02_write_runs_only_if_fired', 'C02_write_runs_if_fired', 'C02_untracked_read_sees_stale_value'], bridge=1500, extra_targets=["theories/Reactive/Bridge.vo"], gen=gen, oracle=oracle, nontrivial=nontrivial,
         rule=("effect-write-free programs: the C01 small family, layered diamonds (depth 2-4, fan-in through selectors with "
               "coarse equality, conditional reads, effects creating inner effects), fan-in graphs under batches that write several "
               "signals in every order (multi-source propagation), random programs; histories of writes and "
